@@ -1,7 +1,9 @@
 """C17 - plot labels: aliases replace the nearest aliased ancestor, all modules labelled.
 
   C17.R1  the aliased-ancestor test is boundary-safe, regex-free, and the label is alias + the rest of the name after the ancestor
-  C17.R2  the most specific aliased ancestor wins (whatever the mechanism: ordered candidates + first match, walk up the parents, longest match)
+  C17.R2  the most specific aliased ancestor wins (whatever the mechanism: ordered candidates + first match, walk up the parents, longest match,
+          or the label of the parent extended by the last component - then the parent's label must be final when it is used: computed on
+          demand by recursion, or read back in a pass that provably visits ancestors first; rules/c17_inductive.py)
   C17.R3  every node gets exactly one label; the default is the full name
   C17.R4  the existence check runs before the backend is called and raises an error naming the missing module
   C17.R5  remaining options are passed through to the drawing backend unchanged
@@ -41,7 +43,8 @@ def run(repo: Repo) -> Result:
         "Decides the label mechanism structurally on the flattened view of NetworkxGraph.draw (helpers substituted, comprehensions unrolled): "
         "the aliased-ancestor test compares whole dotted components and uses no regex or str.replace; the label is the alias plus the remainder "
         "after the matched ancestor; the most specific aliased ancestor wins (ordered candidates with first match, a walk up the parent modules, "
-        "or a longest-match selection); every node of the graph gets exactly one label with the full name as default; aliases for unknown modules "
+        "a longest-match selection, or the parent's label extended by the last component - computed on demand, or read back from the label mapping in a pass "
+        "over sorted names, which puts every ancestor before its descendants; a pass in the insertion order of the graph's nodes is a violation); every node of the graph gets exactly one label with the full name as default; aliases for unknown modules "
         "raise before the backend is called; all other options reach draw_networkx unchanged; label computation writes no state."
     )
     res.not_decided = "the label map as a function on all trees (values are not computed)."
@@ -212,10 +215,16 @@ class Ctx:
     def unsure(self, rule: str, what: str, detail: str, node: ast.AST | None = None) -> None:
         self.res.undecide(rule, self.base + what, detail, self.M.where(node) if node is not None else where(self.draw, self.draw.node))
 
+    def roots(self) -> list:
+        """draw() and every helper flattened into its view - also those that are only reached through a table of method names
+        (`getattr(self, row.converter)(...)`), which the call graph does not follow"""
+        inlined = set(getattr(self.M.V, "inlined", []))
+        return [self.draw, *[f for f in self.repo.all_functions() if f.fq in inlined and f.fq != self.draw.fq]]
+
     # ------------------------------------------------------------------ R1 (lint part)
     def lint(self) -> None:
         """F-NAME sites in everything reachable from draw.  `unknown` verdicts are kept back: the label analysis may explain them."""
-        fq = {f.fq for f in reachable_funcs(self.repo, [self.draw], byname=False)}
+        fq = {f.fq for f in reachable_funcs(self.repo, self.roots(), byname=False)}
         # the public name-list helpers (get_parent_modules) are C14.R2's business, not part of the label mechanism
         sites = [s for s in names.scan(self.repo) if s.fi.fq in fq and s.fi.name not in VOCABULARY]
         # prefix tests and cuts are judged again by the label analysis, which reads the whole match condition (a raw prefix test next
@@ -489,7 +498,7 @@ class Ctx:
     # ------------------------------------------------------------------ R6
     def stateless(self) -> None:
         E = Effects(self.repo, types_of(self.repo))
-        funcs = list(reachable_funcs(self.repo, [self.draw], byname=False))
+        funcs = list(reachable_funcs(self.repo, self.roots(), byname=False))
         bad = []
         for f in funcs:
             for w in E.writes(f):
